@@ -152,6 +152,13 @@ def p_fixpoint(v):
 def p_first_line(v):
     d = debcon.DescriptionField.from_value(v)
     out = d.dumps()
+    # the synopsis is the trimmed first line of the value, nothing else is changed inside it
+    want = v.splitlines()[0].strip() if v and v.splitlines() else ''
+    if (d.synopsis or '') != want:
+        return 'synopsis %r is not the trimmed first line %r' % (d.synopsis, want)
+    lic0 = dcopy.LicenseField.from_value(v)
+    if (lic0.name or '') != want:
+        return 'license short name %r is not the trimmed first line %r' % (lic0.name, want)
     if (out.split('\n')[0] if out else '') != (d.synopsis or ''):
         return 'Description first line %r is not the synopsis %r' % (out.split('\n')[0], d.synopsis)
     lic = dcopy.LicenseField.from_value(v)
